@@ -539,6 +539,10 @@ func generate(c *Config) {
 		scale(c)
 		return
 	}
+	if os.Getenv("C20_ONLY") == "round3" {
+		round3(c)
+		return
+	}
 	pairs(c)
 	scale(c)
 	for i := c.Count(2500, 10000); i > 0; i-- {
@@ -558,6 +562,7 @@ func generate(c *Config) {
 		emit(c, draw(rng, "wrong", parents, cfg, perturb(rng, plan(parents), k)))
 	}
 	malformed(c, c.Count(2000, 8000))
+	round3(c)
 	langflip(c, c.Count(30, 200))
 	emptymatch(c, c.Count(300, 1500))
 }
